@@ -200,26 +200,51 @@ def write_replay(pid, f, observed):
 
 
 def judge(e2, f):
-    """-> (reproduced: bool|None, observed)   None = no native scenario for this finding"""
+    """-> (reproduced: bool|None, observed)   None = no native scenario for this finding.
+    f.scenario: one scenario, a list of variants (reproduced if any variant does), or {"pair": [a, b]}
+    (the predicate then receives both outputs)."""
     if f.scenario is None:
         return None, None
-    obs = {}
-    rep = False
-    for profile in ("dev", "release"):
-        o = e2.run_scenario(f.scenario, profile)
-        if o is None:
-            return None, {"error": e2.replay_build_err}
-        obs[profile] = o
-        if f.predicate == "crash":
-            rep = rep or o.get("crash", False)
-        elif f.predicate is None:
-            rep = rep or False
-        else:
+    if isinstance(f.scenario, dict) and "pair" in f.scenario:
+        obs = {}
+        rep = False
+        for profile in ("dev", "release"):
+            outs = []
+            for sc in f.scenario["pair"]:
+                o = e2.run_scenario(sc, profile)
+                if o is None:
+                    return None, {"error": e2.replay_build_err}
+                o["scenario"] = sc
+                outs.append(o)
+            obs[profile] = {"result": [o["result"] for o in outs], "logs": [o["log"] for o in outs]}
             try:
-                rep = rep or bool(f.predicate(o)) if not o.get("crash") else rep
-            except Exception as ex:  # predicate does not apply to this output
+                rep = rep or bool(f.predicate(outs))
+            except Exception as ex:
                 obs[profile]["predicate_error"] = repr(ex)
-    return rep, obs
+        return rep, obs
+    variants = f.scenario if isinstance(f.scenario, list) else [f.scenario]
+    last = {}
+    for sc in variants:
+        obs = {}
+        rep = False
+        for profile in ("dev", "release"):
+            o = e2.run_scenario(sc, profile)
+            if o is None:
+                return None, {"error": e2.replay_build_err}
+            o["scenario"] = sc
+            obs[profile] = o
+            if f.predicate == "crash":
+                rep = rep or o.get("crash", False)
+            elif f.predicate is not None and not o.get("crash"):
+                try:
+                    rep = rep or bool(f.predicate(o))
+                except Exception as ex:  # predicate does not apply to this output
+                    obs[profile]["predicate_error"] = repr(ex)
+        last = obs
+        if rep:
+            f.scenario = sc   # the variant that reproduces is what the replay file records
+            return True, obs
+    return False, last
 
 
 def engine(pid, spec, tier, ws, out, log_dir, known):
@@ -242,7 +267,7 @@ def engine(pid, spec, tier, ws, out, log_dir, known):
                 f2, q = C.counter_checks(ps, e2.ctx, e2.get_solver())
                 findings += f2
             if tier == "thorough" or pid in ("C07", "C08", "C04"):
-                e2.validate_traces([p for p in ps], C.ga_scenario, limit=60 if tier == "thorough" else 25)
+                e2.validate_traces([p for p in ps], lambda p, c: C.ga_scenario(p, c, strict=True), limit=60 if tier == "thorough" else 25)
         if "make_credential" in todo:
             ps = e2.run_paths("mc", "authenticator::make_credential", "make_credential::{closure#0}")
             ps = e2.feasible(ps)
@@ -250,7 +275,13 @@ def engine(pid, spec, tier, ws, out, log_dir, known):
             f, st = C.check_make_credential(ps, e2.ctx, want)
             findings += f
             if tier == "thorough" or pid in ("C07", "C04"):
-                e2.validate_traces([p for p in ps if C.no_yield(p)], C.mc_scenario, limit=40 if tier == "thorough" else 15)
+                e2.validate_traces([p for p in ps if C.no_yield(p)], lambda p, c: C.mc_scenario(p, c, strict=True), limit=40 if tier == "thorough" else 15)
+        if "stores" in todo:
+            for kind in ("option", "memory"):
+                f, q, n = C.check_store_contract(e2.fns, e2.ctx, e2.get_solver(), kind)
+                findings += f
+                npaths += n
+                e2.functions.append("<%s as CredentialStore>::find_credentials::{closure#0} and its closures" % ("Option<Passkey>" if kind == "option" else "MemoryStore"))
         if "forwarding" in todo:
             for method in ("get_info", "make_credential", "get_assertion"):
                 name = e2.find_fn("ctap2::<impl", "::%s::{closure#0}" % method)
@@ -320,11 +351,16 @@ def do_replay(rp, path):
         e2 = E2(ws, log_dir)
         rc = 0
         for profile in ("dev", "release"):
-            o = e2.run_scenario(rp["scenario"], profile)
-            print("replay profile=%s -> %s" % (profile, json.dumps(o)[:600]))
+            for sc in (rp["scenario"]["pair"] if isinstance(rp["scenario"], dict) and "pair" in rp["scenario"] else [rp["scenario"]]):
+                o = e2.run_scenario(sc, profile)
+                print("replay profile=%s -> %s" % (profile, json.dumps(o)[:600]))
         print("(compare with the recorded observation in %s)" % path)
         obs = rp.get("observed") or {}
-        same = any(json.dumps(e2.run_scenario(rp["scenario"], pr)["result"]) == json.dumps(obs.get(pr, {}).get("result")) for pr in ("dev", "release"))
+        scs = rp["scenario"]["pair"] if isinstance(rp["scenario"], dict) and "pair" in rp["scenario"] else [rp["scenario"]]
+        def res(pr):
+            r = [e2.run_scenario(sc, pr)["result"] for sc in scs]
+            return r if len(r) > 1 else r[0]
+        same = any(json.dumps(res(pr)) == json.dumps(obs.get(pr, {}).get("result")) for pr in ("dev", "release"))
         if same:
             print("VIOLATION property=%s replay=%s" % (rp["property"], path))
             return 1
